@@ -352,28 +352,37 @@ class C14(Prop):
         recs = [r for r in ctx['recs'] if r['line'].startswith('(bi ')]
         lines = [r['line'] for r in recs]
         # keep the arrays with cross-kind-equal elements and a sample of the rest
-        sel = [l for l in lines if '(a ' in l][:1500] + lines[::25]
-        inp = "\n".join(sel) + "\n"
+        import re as _re, random as _random
+        nb = [l for l in lines if _re.sub(r'^\((\w+) \w+ ', r'(\1 _ ', l) in builtins.C14_NEIGHBOURS]
+        if ctx['tier'] == 'quick':
+            nb = nb[::2] + nb[1::16]
+        sel = [l for l in lines if '(a ' in l][:1500] + lines[::25] + nb
+        sel = list(dict.fromkeys(sel))
         n = self.nproc[ctx['tier']]
         binary = ctx['binaries']['release']
-        ref = None
         bad = []
-        procs = []
         import concurrent.futures as cf
 
         def run(i):
-            return subprocess.run([binary], input=inp, capture_output=True, text=True).stdout
+            # a different call order in every process (0: as generated, 1: reversed, others: shuffled) - "after any other calls"
+            order = list(sel)
+            if i == 1:
+                order.reverse()
+            elif i > 1:
+                _random.Random(ctx.get('seed', 0) * 100003 + i).shuffle(order)
+            out = subprocess.run([binary], input="\n".join(order) + "\n", capture_output=True, text=True).stdout
+            return {l.split(' ', 1)[0]: l for l in out.splitlines()}
         with cf.ThreadPoolExecutor(max_workers=16) as ex:
             outs = list(ex.map(run, range(n)))
-        ref = outs[0].splitlines()
-        for o in outs[1:]:
-            ol = o.splitlines()
-            if ol != ref:
-                for a, b_, l in zip(ref, ol, sel):
-                    if a != b_:
-                        bad.append((l, f'differs between fresh processes: {a[:120]} vs {b_[:120]}', None))
+        ref = outs[0]
+        byid = {core.top_elems(l)[1]: l for l in sel}
+        for i, o in enumerate(outs[1:], 1):
+            if o != ref:
+                for cid in ref:
+                    if o.get(cid) != ref[cid]:
+                        bad.append((byid.get(cid, cid), f'differs between fresh processes / call orders (process {i}): {ref[cid][:120]} vs {str(o.get(cid))[:120]}', None))
                         break
-        self.extra_cov = {'fresh_processes': n, 'calls_per_process': len(sel), 'processes_deviating': len(bad)}
+        self.extra_cov = {'fresh_processes': n, 'calls_per_process': len(sel), 'near_identical_argument_calls': len(nb), 'call_orders': 'as generated, reversed, shuffled per process', 'processes_deviating': len(bad)}
         return bad[:5]
 
 
